@@ -178,6 +178,10 @@ impl Scenario for HubCore {
                     }
                     prefix.push(advance(1));
                 }
+                "dust_pool" => {
+                    // a one-unit bSei pool next to a large stSei pool: slashing rounds the small pool to zero
+                    prefix = vec![bond(ALICE, k), bond_st(BOB, 1000 * k), bond_st(ALICE, 50 * k)];
+                }
                 "blocked_removal" => {
                     // val1 was removed while a redelegation into it was in flight: its stake is stranded on an
                     // unregistered validator until somebody calls Redelegations; the registered set is uneven
@@ -265,9 +269,11 @@ impl Scenario for HubCore {
                     v.push(remove_validator(OWNER, val));
                 } else {
                     v.push(add_validator(OWNER, val));
-                    // the permissionless follow-up for stake that could not be moved at removal time
+                    // the permissionless follow-up for stake that could not be moved at removal time, and the
+                    // owner simply repeating the removal
                     if c.delegation(HUB, val) > 0 {
                         v.push(exec(format!("redelegations({})", val), EVE, REG, serde_json::json!({"redelegations":{"address":val}}), &[]));
+                        v.push(remove_validator(OWNER, val));
                     }
                 }
             }
@@ -944,6 +950,28 @@ fn c19_step(pre: &Chain, po: &HubObs, a: &Action, out: &Outcome, post: &Chain, q
     }
     if (qo.delegated as i128 - po.delegated as i128) != rebonded as i128 {
         cx.viol("C19.rebond", "delegated stake did not grow by exactly the re-bonded amount", format!("{}: {} -> {} rebonded {}", a.label, po.delegated, qo.delegated, rebonded));
+    }
+    // the split follows the booked stake of the two pools (as the State query reports them before the update)
+    {
+        let price = pre.price_dec();
+        let inv = cosmwasm_std::Fraction::inv(&price).unwrap_or(cosmwasm_std::Decimal::zero());
+        let pu = pend.get(USEI).copied().unwrap_or(0) + pre.bal(DISP, USEI);
+        let pk = pend.get(KUSD).copied().unwrap_or(0) + pre.bal(DISP, KUSD);
+        // the booked stake as stored and as the State query recognises it (they differ only while a slash is
+        // unrecognised, and then only by the rounding of the pro-rata recognition): either weighting is accepted
+        let (st, b) = (po.state.total_bond_stsei_amount.u128(), po.state.total_bond_bsei_amount.u128());
+        let (st2, b2) = (po.stored.total_bond_stsei_amount.u128(), po.stored.total_bond_bsei_amount.u128());
+        if st + b > 0 && st2 + b2 > 0 && !via_registry {
+            let total_in_usei = pu + mul_dec(pk, inv);
+            let s1 = muldiv(total_in_usei, st, st + b);
+            let s2 = muldiv(total_in_usei, st2, st2 + b2);
+            let got = ku + rebonded;
+            let tol = 3 + mul_dec(1, inv) + 1;
+            cx.count("c19_split_checked");
+            if got + tol < s1.min(s2) || got > s1.max(s2) + tol {
+                cx.viol("C19.split_by_stake", "stSei-side share of the rewards differs from total x stSei bonded / total bonded", format!("{}: pending {} usei {} kusd, pools st {} b {} (stored {} {}): stSei side got {} expected {}..{} (tolerance {})", a.label, pu, pk, st, b, st2, b2, got, s1.min(s2), s1.max(s2), tol));
+            }
+        }
     }
     // stSei rate rises by exactly rebonded / (supply + pending); bSei rate untouched
     let st_pre = po.state.total_bond_stsei_amount.u128();
